@@ -1202,7 +1202,7 @@ func E6WidthFrame(c *core.Ctx, r *core.Report) {
 
 // E6WindingMode: the scanner's winding mode is selected for what is drawn next.
 func E6WindingMode(c *core.Ctx, r *core.Report) {
-	r.Rule("E6.winding-mode", "Rasterizer.RenderPath: the last scanner.SetWinding call before a fill outline is scanned derives from style.FillRule, and before a stroke outline (a path produced by Stroke(…)) it is SetWinding(true): stroke outlines overlap themselves and each other and are always non-zero")
+	r.Rule("E6.winding-mode", "Rasterizer.RenderPath: the last scanner.SetWinding call before a fill outline is scanned derives from style.FillRule, and before a stroke outline (a path produced by Stroke(…)) it is SetWinding(true): stroke outlines overlap themselves and each other and are always non-zero. The tile of a hatch pattern (`v = hatch.Tile(…)`) is such an outline too — stroked hatch lines that overlap where they cross: on every path on which the scanned variable holds a tile the mode is non-zero (the winding mode and the set of tiled variables are tracked together, per path)")
 	p := c.MustPkg("renderers/rasterizer")
 	info := p.TypesInfo
 	fd := core.MustFuncDecl(p, "Rasterizer.RenderPath")
@@ -1229,7 +1229,19 @@ func E6WindingMode(c *core.Ctx, r *core.Report) {
 		}
 		return true
 	})
-	type S map[string]bool // possible modes: "unset", "fillrule", "nonzero", "other"
+	// a configuration is "mode;tiled variables" — mode: unset, fillrule, nonzero, other
+	type S map[string]bool
+	cfg := func(mode string, tiled []string) string {
+		sort.Strings(tiled)
+		return mode + ";" + strings.Join(tiled, ",")
+	}
+	parse := func(k string) (string, []string) {
+		parts := strings.SplitN(k, ";", 2)
+		if parts[1] == "" {
+			return parts[0], nil
+		}
+		return parts[0], strings.Split(parts[1], ",")
+	}
 	n := 0
 	fl := &core.Flow[S]{
 		Join: func(a, b S) S {
@@ -1256,6 +1268,37 @@ func E6WindingMode(c *core.Ctx, r *core.Report) {
 		Dead:   func() S { return nil },
 		IsDead: func(s S) bool { return s == nil },
 		Exit:   func(ast.Node, S) {},
+		Stmt: func(st ast.Stmt, s S) (S, bool) {
+			// v = hatch.Tile(…): from here on v holds the outline of stroked hatch lines
+			as, ok := st.(*ast.AssignStmt)
+			if !ok || len(as.Lhs) != 1 || len(as.Rhs) != 1 || s == nil {
+				return s, false
+			}
+			call, ok := core.Unparen(as.Rhs[0]).(*ast.CallExpr)
+			if !ok {
+				return s, false
+			}
+			se, ok := call.Fun.(*ast.SelectorExpr)
+			id, isID := as.Lhs[0].(*ast.Ident)
+			if !ok || !isID || se.Sel.Name != "Tile" {
+				return s, false
+			}
+			out := S{}
+			for k := range s {
+				mode, tiled := parse(k)
+				has := false
+				for _, t := range tiled {
+					if t == id.Name {
+						has = true
+					}
+				}
+				if !has {
+					tiled = append(append([]string{}, tiled...), id.Name)
+				}
+				out[cfg(mode, tiled)] = true
+			}
+			return out, true
+		},
 		Expr: func(e ast.Expr, s S) S {
 			out := s
 			ast.Inspect(e, func(m ast.Node) bool {
@@ -1271,14 +1314,19 @@ func E6WindingMode(c *core.Ctx, r *core.Report) {
 				case "SetWinding":
 					if len(call.Args) == 1 {
 						arg := types.ExprString(call.Args[0])
+						mode := "other"
 						switch {
 						case arg == "true":
-							out = S{"nonzero": true}
+							mode = "nonzero"
 						case strings.Contains(arg, "FillRule"):
-							out = S{"fillrule": true}
-						default:
-							out = S{"other": true}
+							mode = "fillrule"
 						}
+						ns := S{}
+						for k := range out {
+							_, tiled := parse(k)
+							ns[cfg(mode, tiled)] = true
+						}
+						out = ns
 					}
 				case "ToScanxScanner":
 					id, ok := core.Unparen(se.X).(*ast.Ident)
@@ -1287,20 +1335,38 @@ func E6WindingMode(c *core.Ctx, r *core.Report) {
 					}
 					n++
 					isStroke := strokeVar[core.ObjOf(info, id)]
-					want, what := "fillrule", "fill outline"
+					what := "fill outline"
 					if isStroke {
-						want, what = "nonzero", "stroke outline"
+						what = "stroke outline"
 					}
 					key := fmt.Sprintf("renderers/rasterizer.Rasterizer.RenderPath|%s scan #%d", what, n)
-					if len(out) == 1 && out[want] {
-						r.OK("E6.winding-mode", key, c.Pos(call.Pos()), want)
-					} else {
-						var modes []string
-						for k := range out {
-							modes = append(modes, k)
+					bad := ""
+					var cfgs []string
+					for k := range out {
+						cfgs = append(cfgs, k)
+					}
+					sort.Strings(cfgs)
+					for _, k := range cfgs {
+						mode, tiled := parse(k)
+						isTile := false
+						for _, t := range tiled {
+							if t == id.Name {
+								isTile = true
+							}
 						}
-						sort.Strings(modes)
-						r.Fail("E6.winding-mode", key, c.Pos(call.Pos()), fmt.Sprintf("the %s is scanned with winding mode %v, it needs %q: with EvenOdd, pixels where stroke outlines overlap (two sub-paths crossing) are left unpainted", what, modes, want))
+						switch {
+						case isStroke && mode != "nonzero":
+							bad = fmt.Sprintf("the stroke outline is scanned with winding mode %q, it needs \"nonzero\": with EvenOdd, pixels where stroke outlines overlap (two sub-paths crossing) are left unpainted", mode)
+						case !isStroke && isTile && mode != "nonzero":
+							bad = fmt.Sprintf("on a path on which `%s` holds the tile of a hatch pattern (the outline of stroked hatch lines, which overlap where they cross) it is scanned with winding mode %q, it needs \"nonzero\": with EvenOdd the crossings of the hatch lines are left unpainted", id.Name, mode)
+						case !isStroke && !isTile && mode != "fillrule":
+							bad = fmt.Sprintf("the fill outline is scanned with winding mode %q, it needs the mode derived from style.FillRule", mode)
+						}
+					}
+					if bad == "" {
+						r.OK("E6.winding-mode", key, c.Pos(call.Pos()), strings.Join(cfgs, " | "))
+					} else {
+						r.Fail("E6.winding-mode", key, c.Pos(call.Pos()), bad)
 					}
 				}
 				return true
@@ -1308,7 +1374,7 @@ func E6WindingMode(c *core.Ctx, r *core.Report) {
 			return out
 		},
 	}
-	fl.Run(fd.Body, S{"unset": true})
+	fl.Run(fd.Body, S{"unset;": true})
 	r.Count("E6.scan-sites", n)
 	r.Floor("E6.scan-sites", 4)
 }
